@@ -1,5 +1,7 @@
 """C11 -- only spec-conforming inputs create a process; defaults applied, inputs immutable."""
 import collections
+import collections.abc
+import itertools
 import copy
 import json
 
@@ -23,7 +25,7 @@ RULE += ('; also: namespaces given as OrderedDict / UserDict / read-only mapping
 ASSUMPTIONS = ['attribute assignment on AttributesFrozendict does not change the mapping and is not judged',
                'specs whose non-callable default violates the port itself are rejected at definition time and skipped',
                'reference model written from the statement and documentation']
-REQUIRED = ['constructed', 'accepted', 'rejected', 'defaults_populated', 'callable_defaults', 'populate_defaults_false', 'dynamic_values', 'immutability_probes',
+REQUIRED = ['factory_defaults_compared', 'constructed', 'accepted', 'rejected', 'defaults_populated', 'callable_defaults', 'populate_defaults_false', 'dynamic_values', 'immutability_probes',
             'caller_dict_checks', 'metamorphic/idempotent', 'metamorphic/remove_required', 'metamorphic/wrong_type', 'nested_ns_levels', 'exposed_specs', 'legacy_validators', 'aliased_namespace_values', 'mapping_leaf_values']
 BOUNDS = {'quick': '250 specs (depth<=2) x 40 inputs', 'thorough': '4000 specs (depth<=3) x 60 inputs'}
 UN = '<absent>'
@@ -65,6 +67,26 @@ def d_s():
     return 's'
 
 
+class Serial:
+    """What a factory default makes: every call gives a new one (equal to any other for the model, told apart by its number)."""
+    made = itertools.count()
+
+    def __init__(self):
+        self.n = next(Serial.made)
+
+    def __eq__(self, other):
+        return type(other) is type(self)
+
+    def __hash__(self):
+        return 2
+
+    def __repr__(self):
+        return 'Serial()'
+
+
+generated.register(Serial, 'Serial')
+
+
 def v_short(value, port):
     """A list value may hold at most one element (a validator on a mutable value: what it accepted may change later)."""
     return 'too long' if isinstance(value, list) and len(value) > 1 else None
@@ -86,7 +108,7 @@ def nsv_some(values, port):
 
 VALIDATORS = {'nsv_some': nsv_some, 'v_not1': v_not1, 'nsv_no_x': nsv_no_x, 'v_short': v_short, 'v_not1_old': v_not1_old, 'nsv_no_x_old': nsv_no_x_old}
 MODEL_VALIDATORS = {'nsv_some': nsv_some, 'v_not1': v_not1, 'nsv_no_x': nsv_no_x, 'v_short': v_short, 'v_not1_old': v_not1, 'nsv_no_x_old': nsv_no_x}
-CALLABLES = {'d7': d7, 'd_s': d_s, 'cls_A': A, 'cls_list': list}  # (a class is a callable default like any other: evaluated per construction)
+CALLABLES = {'d7': d7, 'd_s': d_s, 'cls_A': A, 'cls_list': list, 'serial': Serial}  # (a class is a callable default like any other: evaluated per construction)
 NAMES = ['a', 'ab', 'n', 'm', 'x']
 
 
@@ -144,7 +166,7 @@ def rand_port(rng):
         if rng.random() < 0.3 and vt in (None, 'int', 'intstr', 'str'):
             attrs['default'] = ['call', 'd_s' if vt == 'str' else 'd7']
         elif rng.random() < 0.3 and vt in (None, 'A'):
-            attrs['default'] = ['call', 'cls_A' if vt == 'A' or rng.random() < 0.5 else 'cls_list']
+            attrs['default'] = ['call', 'cls_A' if vt == 'A' else rng.choice(['cls_A', 'cls_list', 'serial'])]
         else:
             val = _good_value(rng, vt)
             if val != 1:
@@ -456,6 +478,20 @@ def plain(x):
 
 
 # ---------------------------------------------------------------------------------------
+def _callable_default_pairs(children, given, v1, v2, path):
+    """(path, callable, value in the first process, value in the second) for the ports whose value came from a factory default."""
+    is_map = isinstance(given, collections.abc.Mapping)
+    for name, d in children.items():
+        if name not in v1 or name not in v2:
+            continue
+        if d[0] == 'ns':
+            if isinstance(v1[name], collections.abc.Mapping) and isinstance(v2[name], collections.abc.Mapping):
+                for item in _callable_default_pairs(d[2], given.get(name) if is_map else None, v1[name], v2[name], path + name + '.'):
+                    yield item
+        elif d[1].get('default', [None])[0] == 'call' and d[1]['default'][1] in ('cls_A', 'cls_list', 'serial') and not (is_map and name in given):
+            yield path + name, d[1]['default'][1], v1[name], v2[name]
+
+
 def _construct(cls, inputs):
     import asyncio
     loop = _loop()
@@ -585,6 +621,20 @@ def run_case(case):
             viol.append(V('raw-inputs-follow-caller', 'raw-inputs-follow-caller', 'a key added to the caller\'s dictionary after the construction shows in raw_inputs: %r' % (
                 plain(proc.raw_inputs),)))
         del inputs['zz_added_later']
+    # a second process of the class, given the same: every callable default is evaluated again for it (the objects a factory makes are
+    # not shared between processes)
+    if proc is not None and verdict == 'accept':
+        second, exc2 = _construct(cls, _real(inputs_desc) if inputs_desc is not None else None)
+        if second is None:
+            viol.append(V('second-construction-differs', 'second-construction-differs:raised', 'a second process given the same inputs could not be constructed: %r (spec %s, inputs %r)' % (exc2, shape, inputs_desc)))
+        else:
+            if plain(second.inputs) != expected:
+                viol.append(V('second-construction-differs', 'second-construction-differs:inputs', 'a second process given the same inputs has inputs %r, expected %r (spec %s)' % (plain(second.inputs), expected, shape)))
+            for path, which, v1, v2 in _callable_default_pairs(spec[2], inputs, proc.inputs, second.inputs, ''):
+                obs['factory_defaults_compared'] = obs.get('factory_defaults_compared', 0) + 1
+                if v1 is v2 or (isinstance(v1, Serial) and isinstance(v2, Serial) and v1.n == v2.n):
+                    viol.append(V('callable-default-not-reevaluated', 'callable-default-not-reevaluated:%s' % which,
+                                  'two processes of one class constructed with inputs %r share the object their callable default %s made for port %s (spec %s)' % (inputs_desc, which, path, shape)))
     # metamorphic relations (model independent)
     has_od_port = '"valid_type": "OD"' in json.dumps(spec)  # (plain() turns an OrderedDict leaf value into a dict, which such a port refuses)
     if proc is not None and verdict == 'accept' and has_od_port:
